@@ -1046,6 +1046,13 @@ pub fn generate(rng: &mut Rng, cfg: &GenCfg) -> ProgramAst {
             }
             let qualifier = if qualified {
                 let mut q = rng.pick(QUALS).to_string();
+                // now and then the qualifier is spelled like something the module declares
+                // (`use "types.oal" as id; … id.id`)
+                let plain: Vec<&String> = their.iter().filter(|n| n.chars().next().map(|c| c.is_ascii_alphabetic() || c == '_').unwrap_or(false) && n.as_str() != "concat").collect();
+                if !plain.is_empty() && rng.chance(1, 5) {
+                    q = (*rng.pick(&plain)).clone();
+                    features.insert("qualifier_spelled_like_a_member");
+                }
                 let reuse = cfg.clashing_imports && !quals_used.is_empty() && rng.chance(1, 4);
                 if reuse {
                     q = quals_used.iter().next().unwrap().clone();
